@@ -1031,6 +1031,15 @@ def token_alphabet(pool):
             ("unsigned", mk_token({"alg": "none"}, {})), ("NULL", None), ("empty", b"")]
 
 
+def _cb_lines(step):
+    """executor line and driver line of a configuration step (they differ for the callback-context steps)"""
+    if step.startswith("setcb0 "):
+        return step, "setcb " + step[7:].replace("ctx,", "ctxis0,").replace("setctxis0,", "setctx,")
+    if step.startswith("setcb ") and "ctx," in step and "@ctx" not in step:
+        return step, step.replace("ctx,", "ctxis1,").replace("setctxis1,", "setctx,")
+    return step, step
+
+
 def reuse_suite(world, pool, tier, rng):
     """C13/C14: every sequence over the token alphabet (+ error_clear) on one checker, each verdict
     compared with a fresh identically configured checker's"""
@@ -1051,6 +1060,10 @@ def reuse_suite(world, pool, tier, rng):
     cfg_steps = [("setcb-key", "setcb key:%d:%d,alg:1" % it), ("setcb-none", "setcb -"), ("setcb-inert", "setcb getalg"),
                  ("setkey", "setkey 0 %d %d" % it), ("unsetkey", "setkey 0"), ("setcb-key2", "setcb key:%d:%d,alg:1" % it2),
                  ("setkey2", "setkey 0 %d %d" % it2), ("setcb-ctx-only", "setcb @ctx"),
+                 # the context a callback is handed is the one that was configured (none here), every time -- also after a call in
+                 # which the callback wrote something into the per-call config's ctx
+                 ("setcb0-writes-ctx", "setcb0 ctx,setctx,key:%d:%d,alg:1" % it), ("setcb0-key2-reads-ctx", "setcb0 ctx,key:%d:%d,alg:1" % it2),
+                 ("setcb-reads-ctx", "setcb ctx,setctx,key:%d:%d,alg:1" % it),
                  ("setkey-refused", "setkey 7 %d %d" % it)]          # a context-only update keeps the callback; a refused setkey keeps the key
     vmsg = alpha[0][1].rsplit(b".", 1)[0]
     valid2 = ("valid-under-key2", vmsg + b"." + hs_sig(1, key2.k, vmsg))
@@ -1059,21 +1072,26 @@ def reuse_suite(world, pool, tier, rng):
     # the same token presented again after the key behind it changed, in every way of changing it
     ks = {n: i for i, (n, _) in enumerate(cfg_steps)}
     v1, v2 = len(cfg_steps), len(cfg_steps) + 3
+    forced_ctx = [(ks["setcb0-writes-ctx"], len(cfg_steps), len(cfg_steps), ks["setcb0-key2-reads-ctx"], len(cfg_steps) + 3, len(cfg_steps)),
+                  (ks["setcb0-writes-ctx"], len(cfg_steps), ks["setkey2"], len(cfg_steps) + 3, len(cfg_steps)),
+                  (ks["setcb-reads-ctx"], len(cfg_steps), len(cfg_steps), ks["setcb0-writes-ctx"], len(cfg_steps), len(cfg_steps))]
     forced = [(ks[a], t1, ks[b], t2) for a in ("setcb-key", "setkey", "setcb-key2", "setkey2") for b in ("setcb-key", "setkey", "setcb-key2", "setkey2", "setcb-none", "unsetkey", "setcb-ctx-only", "setkey-refused")
               for t1 in (v1, v2) for t2 in (v1, v2)]
-    hist = forced + rng.sample(hist, 1500 if tier == "thorough" else 300)
+    hist = forced_ctx + forced + rng.sample(hist, 1500 if tier == "thorough" else 300)
     for h in hist:
         world.op("ck 2 new", tag="cfg")
         applied = []
         for x in h:
             if x < len(cfg_steps):
-                world.op("ck 2 " + cfg_steps[x][1], tag="cfg")
+                ex_, dr_ = _cb_lines(cfg_steps[x][1])
+                world.op("ck 2 " + ex_, "ck 2 " + dr_, tag="cfg")
                 applied.append(cfg_steps[x][1])
                 continue
             name, tok = toks2[x - len(cfg_steps)]
             world.op("ck 3 new", tag="cfg")
             for l in applied:
-                world.op("ck 3 " + l, tag="cfg")
+                ex_, dr_ = _cb_lines(l)
+                world.op("ck 3 " + ex_, "ck 3 " + dr_, tag="cfg")
             ref = len(world.ops)
             metas.append((ref, {"kind": "verify", "tok": name, "role": "fresh-reference"}))
             world.op("ck 3 verify " + hx(tok), tag="verify")
